@@ -106,6 +106,37 @@ theorem normal_box_muller (m sd u1 u2 : ℝ) (rest : List ℝ) (hsd : 0 < sd) (h
     have hsc := Real.sin_sq_add_cos_sq (twopi * u1)
     nlinarith [hs, hsc]
 
+/-- special members as written (copy assignment "keep spare value but change distribution",
+    move assignment, move constructor): after `dst = src` (copy or move) the parameters are the
+    SOURCE's, so the next two samples of a target without pending spare value are
+    mean_src + stddev_src·z₁, mean_src + stddev_src·z₂; a pending spare deviate of the target is
+    kept and scaled with the source's parameters; the move constructor hands the spare value
+    over and clears it in the moved-from object -/
+theorem normal_assign_params (dst src : Normal ℝ) (u1 u2 : ℝ) (rest : List ℝ) :
+    ((dst.copyAssign src).mean = src.mean ∧ (dst.copyAssign src).stddev = src.stddev ∧
+      (dst.copyAssign src).spare = dst.spare) ∧
+    ((dst.moveAssign src).1.mean = src.mean ∧ (dst.moveAssign src).1.stddev = src.stddev) ∧
+    ((src.moveCtor).1 = ⟨src.mean, src.stddev, src.spare⟩ ∧ (src.moveCtor).2.spare = none) ∧
+    (dst.spare = none → ∃ n', Normal.sampleN 2 (dst.copyAssign src) (u1 :: u2 :: rest) =
+      some ([Real.sqrt (-2 * Real.log u2) * Real.sin (twopi * u1) * src.stddev + src.mean,
+             Real.sqrt (-2 * Real.log u2) * Real.cos (twopi * u1) * src.stddev + src.mean], n', rest)) ∧
+    (∀ sp, dst.spare = some sp → ∃ n', (dst.copyAssign src).sample rest =
+      some (sp * src.stddev + src.mean, n', rest)) := by
+  refine ⟨⟨rfl, rfl, rfl⟩, ?_, ⟨rfl, rfl⟩, ?_, ?_⟩
+  · unfold Normal.moveAssign
+    cases dst.spare <;> cases src.spare <;> exact ⟨rfl, rfl⟩
+  · intro hd
+    have hsp : (dst.copyAssign src).spare = none := hd
+    refine ⟨⟨src.mean, src.stddev, none⟩, ?_⟩
+    simp only [Normal.sampleN]
+    rw [normal_eval_fresh _ hsp]
+    simp only []
+    rw [normal_eval_spare _ _ rfl]
+    rfl
+  · intro sp hd
+    have hsp : (dst.copyAssign src).spare = some sp := hd
+    exact ⟨_, normal_eval_spare _ sp hsp rest⟩
+
 /-! ## GammaDistribution (Marsaglia–Tsang rejection)  x > 0 -/
 
 /-- ★ support and soundness of the rejection loop: whatever the fuel and the script, a returned
